@@ -3,6 +3,7 @@ use crate::hist::{act_json, observe, Act, Interp, Obs};
 use crate::ops::{hist_strategy, CfgProfile, HistCase, Weights};
 use crate::run::{Ctx, Outcome, Property, Tier, Violation};
 use crate::world::{World, N_TRADERS};
+use margined_perp::margined_engine as eng;
 use margined_perp::margined_engine::Position;
 use proptest::strategy::BoxedStrategy;
 use serde_json::json;
@@ -43,6 +44,7 @@ impl Property for C13 {
         w.close = 16;
         w.squeeze = 5;
         w.liq_weakest = 6;
+        w.ecfg = 2;
         hist_strategy(&p, &w, 4, tier.pick(35, 80))
     }
     fn cases(&self, tier: Tier) -> u32 {
@@ -89,6 +91,22 @@ impl Property for C13 {
             let act_n = match &act {
                 Act::Open { t, v, buy, margin, lev, limit, directed, .. } => Act::Open { t: *t, v: *v, buy: *buy, margin: *margin, lev: *lev, limit: *limit, attach: pulled, directed: *directed },
                 Act::Deposit { t, v, amount, .. } => Act::Deposit { t: *t, v: *v, amount: *amount, attach: if rc.ok { pulled } else { *amount } },
+                // the engine owner switches fee pools: the twin's own pool of the same rank (contract addresses differ)
+                Act::EngineAdmin { sender, msg: eng::ExecuteMsg::UpdateConfig { owner, insurance_fund, fee_pool: Some(p), initial_margin_ratio, maintenance_margin_ratio, partial_liquidation_ratio, liquidation_fee } } => {
+                    let k = ic.w.pools.iter().position(|a| a.as_str() == p.as_str()).unwrap_or(0);
+                    Act::EngineAdmin {
+                        sender: sender.clone(),
+                        msg: eng::ExecuteMsg::UpdateConfig {
+                            owner: owner.clone(),
+                            insurance_fund: insurance_fund.clone(),
+                            fee_pool: Some(inn.w.pools[k].to_string()),
+                            initial_margin_ratio: *initial_margin_ratio,
+                            maintenance_margin_ratio: *maintenance_margin_ratio,
+                            partial_liquidation_ratio: *partial_liquidation_ratio,
+                            liquidation_fee: *liquidation_fee,
+                        },
+                    }
+                }
                 other => other.clone(),
             };
             let attach_override = match &act {
@@ -176,7 +194,9 @@ impl Property for C13 {
                         }
                         // users and engine / fund / fee pool occupy the same indices in both worlds
                         let n_cmp = N_TRADERS + 7;
-                        for k in 0..n_cmp {
+                        // ... and the second fee pool is the last account of both
+                        let last = ic.w.idx_pool2;
+                        for k in (0..n_cmp).chain(std::iter::once(last)) {
                             let (dc, dn) = (delta(&pre_c, &post_c, k), delta(&pre_n, &post_n, k));
                             if dc != dn {
                                 viol = Some(
